@@ -23,8 +23,15 @@ on top of stage 1 (`Model/Paginate.lean`), whose style, resume, geometry, contex
 margin definitions are reused unchanged.
 
 Grammar: stage 1 (nested `block`s, `para`s of `n` lines) where every box carries `pos` (static / abs /
-float) and `clear`. Validated restriction (driver and generator): the root and its single child are
-static, and an out-of-flow box has only static descendants.
+float) and `clear`. Validated restriction (driver): the root and its single child are static, and an
+absolutely positioned box has no absolutely positioned descendant (its placeholder would belong to that box's
+own `absolute_boxes` list, `absolute_block`). Round 3: out-of-flow boxes may hold out-of-flow boxes — floats in
+floats and in absolutely positioned boxes (generated), absolutely positioned boxes in floats (accepted) — which
+needs `finish_block_formatting_context` for every box that establishes a formatting context (`finishTail`), the
+translation of the placeholders inside a float when `find_float_position` moves it (`floatDone`), and the layout
+of the placeholders inside the continuation of a float with the page's (`remakePage`).
+Repairs of /repo followed (round 3): e3ac9f0 (`finishBlock`, abort removes the placeholders of `new_children`),
+cdccac3 (`keptBroken`), 50ab141 (`placeFloat`, zero-height float).
 
 State of the Python code that is threaded explicitly (`World`):
   `context.excluded_shapes` (floats of the current block formatting context; the float *objects*, so a
@@ -84,6 +91,10 @@ def OFrag.idx : OFrag → Nat
   | .para _ _ i _ _ _ _ => i
   | .block _ _ i _ _ _ => i
   | .ph _ _ i _ => i
+def OFrag.ser : OFrag → Nat
+  | .para s _ _ _ _ _ _ => s
+  | .block s _ _ _ _ _ => s
+  | .ph s _ _ _ => s
 def OFrag.withIdx : OFrag → Nat → OFrag
   | .para ser id _ st n g ls, i => .para ser id i st n g ls
   | .block ser id _ st g ks, i => .block ser id i st g ks
@@ -435,6 +446,8 @@ def KidsLoop.setCur (s : KidsLoop) (l : List Rat) (isL : Bool) : KidsLoop :=
 def KidsLoop.appendCur (s : KidsLoop) (m : Rat) : KidsLoop :=
   if s.curIsL then { s with cur := s.cur ++ [m], adjL := s.cur ++ [m] } else { s with cur := s.cur ++ [m] }
 
+def maxRat (xs : List Rat) (x0 : Rat) : Rat := xs.foldl (fun a x => if x > a then x else a) x0
+
 /-- The tail of `block_container_layout` after the children loop. As stage 1, with: a box that establishes
 a formatting context counts like the root; `collapsing_through` also needs `get_clearance(…) is None`. -/
 def finishTail (c : Ctx) (st : OStyle) (b : BoxSt) (bs : Rat)
@@ -457,6 +470,10 @@ def finishTail (c : Ctx) (st : OStyle) (b : BoxSt) (bs : Rat)
   let nb : BoxSt := if !st.clone && fragmented then { b with mb := 0, pb := 0, bb := 0 } else b
   let contentY := nb.y + nb.mt + nb.bt + nb.pt
   let h0 : Rat := match st.height with | none => posY - contentY | some h => h
+  -- `context.finish_block_formatting_context(new_box)` (a box that establishes a formatting context, `height:
+  -- auto`): down to the lowest float of its own context (`shapes`; floats nested in a float / absolute box)
+  let h0 : Rat := if st.bfc && st.height = none && !shapes.isEmpty
+    then h0 + (maxRat (shapes.map fun s => s.y + s.mh) (contentY + h0) - (contentY + h0)) else h0
   let h : Rat :=
     if !fragmented then
       let capped := match st.maxH with | none => h0 | some m => if h0 ≤ m then h0 else m
@@ -466,9 +483,17 @@ def finishTail (c : Ctx) (st : OStyle) (b : BoxSt) (bs : Rat)
       if newH > h0 then (if dbd then newH + (b.pb + b.bb + b.mb) else newH) else h0
   { geo := geoOf nb h, adj := if curIsL then .alias else .fresh cur, through := through }
 
+/-- `for key, value in broken_out_of_flow.items(): if any(key is child for child in new_children)`: the
+floats cut on this page that are still children of the box (one that `find_earlier_page_break` dropped is
+laid out again in full on the next page, it must not be continued as well — repair cdccac3). -/
+def keptBroken (kids : List OFrag) (localBroken : List Broken) : List Broken :=
+  localBroken.filter (fun e => kids.any (fun f => f.ser == e.ser))
+
+@[simp] theorem keptBroken_nil (kids : List OFrag) : keptBroken kids [] = [] := rfl
+
 /-- The end of `block_container_layout`. A fragmented box that must not be is dropped: its children's
 placeholders / broken floats are removed, its own broken floats are not registered. Otherwise the local
-`broken_out_of_flow` is merged into the context's. -/
+`broken_out_of_flow` is merged into the context's — the entries whose float is still a child. -/
 def finishContainer (c : Ctx) (st : OStyle) (b : BoxSt) (pageIsEmpty : Bool) (bs : Rat)
     (cwc : Bool) (dbd : Bool) (resume : Option Resume) (posY : Rat) (adjL : List Rat) (cur : List Rat)
     (curIsL : Bool) (nextPage : NextPage) (hasKids : Bool) (pageEnd : String)
@@ -484,7 +509,7 @@ def finishContainer (c : Ctx) (st : OStyle) (b : BoxSt) (pageIsEmpty : Bool) (bs
       | some _ => nextPage
     { frag := some (mk t.geo), resume := resume, nextPage := np,
       adj := t.adj, collapsingThrough := t.through, adjL := adjL, clearance := none,
-      w := { w with broken := w.broken ++ localBroken } }
+      w := { w with broken := w.broken ++ keptBroken kids localBroken } }
 
 /-- The beginning of `block_level_layout` / `block_container_layout`. New: the clearance of
 `block_level_layout` (the box moves below the floats it clears and gets a *fresh* adjoining-margins
@@ -557,7 +582,9 @@ def pageEndOf (st : OStyle) (kids : List OFrag) : String :=
 def finishBlock (c : Ctx) (st : OStyle) (p : Prep) (pageIsEmpty : Bool) (id idx : Nat) (out : KidsOutcome)
     : LayoutResult :=
   match out with
-  | .aborted page s => abortResult (some page) s.adjL s.w
+  | .aborted page s =>
+    -- `remove_placeholders(context, [*new_children, *box.children[skip:]], …)` (repair e3ac9f0)
+    abortResult (some page) s.adjL (s.w.remove (fragSersList s.newChildren))
   | .stopped resume s =>
     let b := { p.b with y := s.boxY }
     finishContainer c st b pageIsEmpty p.bs p.cwc p.dbd (forgetIfFixed st.toPStyle b s.posY resume)
@@ -681,13 +708,13 @@ def floatY (shapes : List Shape) (clear : Bool) (y0 : Rat) : Rat :=
   | none => y0
 
 /-- `find_float_position`: not above the last float; then `avoid_collisions` (a float whose border box
-is 0 high goes to y = 0). -/
+is 0 high stays where it is — repair 50ab141; it went to y = 0 before). -/
 def placeFloat (shapes : List Shape) (f : OFrag) : OFrag :=
   let f := match shapes.getLast? with
     | some l => if f.geo.y < l.y then f.translate (l.y - f.geo.y) else f
     | none => f
   let g := f.geo
-  let y2 : Rat := if g.borderHeight = 0 then 0 else avoidY shapes g.marginHeight (shapes.length + 1) g.y
+  let y2 : Rat := if g.borderHeight = 0 then g.y else avoidY shapes g.marginHeight (shapes.length + 1) g.y
   f.translate (y2 - g.y)
 
 /-- `float_layout`, end (`find_float_position`, `context.excluded_shapes.append(box)`): the placed
@@ -698,8 +725,11 @@ def floatDone (shapes0 : List Shape) (r : LayoutResult) : Option (OFrag × Nat) 
   | some f0 =>
     let ser := r.w.next
     let f := (placeFloat shapes0 f0).withSer ser
-    (some (f, ser), { r.w with next := ser + 1,
-                               shapes := shapes0 ++ [{ ser := ser, y := f.geo.y, mh := f.geo.marginHeight }] })
+    -- `box.translate(…)` moves the descendants: the placeholders of absolutely positioned boxes inside the float
+    -- are the objects of `absolute_boxes`
+    let w := r.w.shift (fragSers f0) (f.geo.y - f0.geo.y)
+    (some (f, ser), { w with next := ser + 1,
+                             shapes := shapes0 ++ [{ ser := ser, y := f.geo.y, mh := f.geo.marginHeight }] })
 
 /-- `_out_of_flow_layout` for a floated child, after `float_layout` returned `r`. -/
 def floatStep (c : Ctx) (index : Nat) (pageIsEmpty : Bool) (bs : Rat) (child : OBox) (hc : child.inFlow = false)
@@ -880,8 +910,6 @@ def substAbsList (res : List (Nat × OFrag)) : List OFrag → List OFrag
   | f :: fs => substAbs res f :: substAbsList res fs
 end
 
-def maxRat (xs : List Rat) (x0 : Rat) : Rat := xs.foldl (fun a x => if x > a then x else a) x0
-
 /-- `context.finish_block_formatting_context(root_box)` (auto height: down to the lowest float) and
 `root_box.children = out_of_flow_boxes + root_box.children`. -/
 def finishRoot (height : Len) (shapes : List Shape) (conts : List OFrag) : OFrag → OFrag
@@ -907,7 +935,8 @@ def remakePage (d : Doc) (index : Nat) (resume : Option Resume) (nextPage : Next
   | none => none      -- `assert root_box`
   | some f =>
     let wa := r.w.absL.foldl (absStep c) ({ r.w with absL := [] }, [])
-    let f' := finishRoot d.root.st.height r.w.shapes wc.2 (substAbs wa.2 f)
+    -- (the placeholders inside the continuation of a float are laid out with the page's as well)
+    let f' := finishRoot d.root.st.height r.w.shapes (substAbsList wa.2 wc.2) (substAbs wa.2 f)
     some { type := { right := rightPage, blank := blank, name := name, index := index },
            root := f', resume := if blank then resume else r.resume,
            nextPage := if blank then nextPage else r.nextPage,
